@@ -211,3 +211,31 @@ Definition event_step (cleanup : bool) (e : event) (w : world) : world :=
 
 Definition run_events (cleanup : bool) (evs : list event) (w : world) : world :=
   fold_left (fun w e => event_step cleanup e w) evs w.
+
+(* ---------- the file operations of LocalManager themselves (manager.go), one map for the whole root ----------
+   CreateConfig / CreateStreamConfig / CreateTLSPassthroughHostsConfig / CreateMainConfig / CreateSecret /
+   CreateDHParam / CreateAppProtectResourceFile write exactly the given bytes to the path of their family
+   (whatever was written or deleted before); DeleteConfig / DeleteStreamConfig / DeleteSecret /
+   DeleteAppProtectResourceFile remove that path.  No operation touches another path. *)
+Inductive mfam := MConf | MStream | MHosts | MMain | MSecret | MDhparam | MAp.
+
+Definition mpath (f : mfam) (name : string) : string :=
+  match f with
+  | MConf => "conf.d/" ++ name ++ ".conf"
+  | MStream => "stream-conf.d/" ++ name ++ ".conf"
+  | MHosts => "tls-passthrough-hosts.conf"
+  | MMain => "nginx.conf"
+  | MSecret => "secrets/" ++ name
+  | MDhparam => "secrets/dhparam.pem"
+  | MAp => "ap/" ++ name            (* App Protect resource files are addressed by full path; the harness uses <root>/ap/<name> *)
+  end.
+
+Inductive mop := MWrite (f : mfam) (name content : string) | MDel (f : mfam) (name : string).
+
+Definition mstep (o : mop) (m : smap string) : smap string :=
+  match o with
+  | MWrite f name content => insert (mpath f name) content m
+  | MDel f name => remove (mpath f name) m
+  end.
+
+Definition mrun (ops : list mop) (m : smap string) : smap string := fold_left (fun m o => mstep o m) ops m.
